@@ -28,7 +28,7 @@ def run(ctx):
     # code side: valid witnesses (one- and multi-block hash inputs, value classes, extreme indices)
     # hash inputs of one, two, three and more Keccak blocks (136 bytes each): insertion 4+64+32b bytes, deletion 64+4b bytes
     dims = [["insertion", 2, 2, "rand"], ["insertion", 2, 3, "rand"], ["deletion", 2, 2, "rand"], ["deletion", 5, 18, "rand"],
-            ["insertion", 3, 7, "rand"], ["deletion", 2, 53, "rand"]]
+            ["insertion", 3, 7, "rand"], ["deletion", 2, 53, "rand"], ["insertion", 33, 1, "beyond32"], ["insertion", 40, 2, "beyond32"]]
     if not ctx.quick:
         dims += [["insertion", 1, 1, "rand"], ["insertion", 3, 4, "rand"], ["insertion", 32, 1, "lastleaf"], ["insertion", 4, 8, "lastleaf"], ["deletion", 31, 2, "maxpad"],
                  ["deletion", 3, 3, "rand"], ["deletion", 6, 19, "rand"], ["insertion", 16, 2, "rand"], ["insertion", 4, 12, "rand"], ["insertion", 4, 16, "rand"],
@@ -37,6 +37,8 @@ def run(ctx):
     if len(ws) != len(dims):
         raise Infra("c03-gen returned %d witnesses" % len(ws))
     cases, plan = [], []
+    beyond = [w for w in ws if int(w["start"] or 0) >= 2 ** 32]
+    ws = [w for w in ws if w not in beyond]
     for w in ws:
         base = case_of(w)
         fields = [("pre", None), ("post", None)] + ([("start", None)] + [("ids", i) for i in range(len(base["ids"]))] if w["mode"] == "insertion" else [("idxs", i) for i in range(len(base["idxs"]))])
@@ -106,6 +108,18 @@ def run(ctx):
             w2["idxs"][0] = str(int(w["idxs"][0]) + 2 ** 32)
         claims.append(dict(hash=str(base_hash), accept=False, what="index + 2^32 in the witness, hash of the 32-bit truncation", witness=w2))
         items.append(dict(w=w, claims=claims, r1cs=True))
+    # batches at positions >= 2^32 of a tree deeper than 32 levels: whatever hash is offered — in particular the hash of the packing with
+    # the index truncated to 32 bits — the circuit must refuse (Packing.tla: the start index has no canonical 4-byte encoding)
+    if beyond:
+        tr = [dict(case_of(w), start=int(w["start"]) % 2 ** 32) for w in beyond]
+        th = c08.spec_hashes(ctx, tr, "PackingMC truncated start index")
+        for w, c in zip(beyond, tr):
+            t = th[c08.key_of_case(c)]
+            hv = int(t["hash"])
+            items.append(dict(w=w, r1cs=False, claims=[
+                dict(hash=str(hv), accept=False, what="start index >= 2^32 in a depth-%d tree, hash of the packing with the index truncated to 32 bits" % w["depth"]),
+                dict(hash=str((hv + 1) % R), accept=False, what="start index >= 2^32, truncated hash + 1"),
+                dict(hash="0", accept=False, what="start index >= 2^32, hash 0")]))
     with ThreadPoolExecutor(len(items)) as ex:
         results = list(ex.map(lambda it: ctx.run_vh(["c03"], dict(items=[it]), timeout=3000), items))
     n = 0
